@@ -227,11 +227,85 @@ package proxy
 // TLS credentials come from GetServerTLSConfig applied to the given TLS configuration.
 //@ contract makeServerOptions
 //@   props C15 C16 C13 C14 C19
+//@   assigns nothing
 //@   panics start-up rejection of an unsupported configuration (several namespaces with search-attribute mappings)
 //@   callpre NewNamespaceNameTranslator: @ns_direction: $reqMap == c.nsTranslations.AsMap() && $respMap == c.nsTranslations.Inverse().AsMap()
 //@   callpre NewSearchAttributeTranslator: @sa_direction: $reqMap == c.saTranslations.FlattenMaps() && $respMap == c.saTranslations.Inverse().FlattenMaps()
 //@   callpre ChainUnaryInterceptor: @acl_last: c.aclPolicy != nil ==> len($interceptors) >= 1 &&
-//@        exists a *interceptor.AccessControlInterceptor :: a != nil && $interceptors[len($interceptors) - 1] == a.Intercept && fromPolicy(a, c.aclPolicy)
+//@        exists a *interceptor.AccessControlInterceptor :: { a.Intercept } a != nil && $interceptors[len($interceptors) - 1] == a.Intercept && fromPolicy(a, c.aclPolicy)
 //@   callpre ChainStreamInterceptor: @acl_last: c.aclPolicy != nil ==> len($interceptors) >= 1 &&
-//@        exists a *interceptor.AccessControlInterceptor :: a != nil && $interceptors[len($interceptors) - 1] == a.StreamIntercept && fromPolicy(a, c.aclPolicy)
+//@        exists a *interceptor.AccessControlInterceptor :: { a.StreamIntercept } a != nil && $interceptors[len($interceptors) - 1] == a.StreamIntercept && fromPolicy(a, c.aclPolicy)
 //@   callpre GetServerTLSConfig: @tls_builder: $serverConfig == tlsConfig
+
+//@ extern quiet NewReplicationStreamObserver
+//@ extern quiet mux.NewGRPCMuxManager
+//@ extern quiet net.Listen
+//@ extern quiet (net.Listener).Addr
+//@ extern quiet (net.Addr).String
+//@ extern quiet grpc.NewServer
+//@ extern quiet adminservice.NewAdminServiceClient
+//@ extern quiet workflowservice.NewWorkflowServiceClient
+//@ extern quiet adminservice.RegisterAdminServiceServer
+//@ extern quiet workflowservice.RegisterWorkflowServiceServer
+//@ extern quiet NewAdminServiceProxyServer
+//@   trusted stores its arguments in a fresh adminServiceProxyServer (checked by reading: field-for-field struct literal)
+//@ extern quiet NewWorkflowServiceProxyServer
+//@   trusted stores its arguments in a fresh workflowServiceProxyServer
+//@ pred isMuxConn(t config.ConnectionType) = t == config.ConnTypeMuxClient || t == config.ConnTypeMuxServer
+//@ extern createClient(lifetime, connectionName, transportCfg, directionLabel)
+//@   trusted checked by reading: the mux branches return grpcutil.NewMultiClientConn
+//@   ensures result1 == nil && isMuxConn(transportCfg.ConnectionType) ==> typeis(result0, "*grpcutil.MultiClientConn")
+//@   assigns nothing
+//@ extern quiet NewShardManager
+//@ extern quiet sanitizeConnectionName
+//@ extern quiet (logging.LoggerProvider).With
+
+// Both transports reach buildProxyServer with the same server configuration (so the policy guards the
+// remote-facing server whichever transport it uses).
+//@ contract createServer
+//@   props C15 C19
+//@   assigns nothing
+//@   requires isMuxConn(c.clusterDefinition.ConnectionType) ==> typeis(c.managedClient, "*grpcutil.MultiClientConn")
+//@   callpre createTCPServer: @same_config: $c == c
+//@   callpre buildProxyServer: @same_config: $c == c
+//@ contract createTCPServer
+//@   props C15 C19
+//@   assigns nothing
+//@   callpre buildProxyServer: @same_config: $c == c && $tlsConfig == c.clusterDefinition.TcpServer.TLSConfig
+
+// The gRPC server is built from the interceptor chains of makeServerOptions for the same configuration; the admin
+// service gets the configured shard-count mode and LCM parameters; the workflow service gets the namespace
+// allow-list of the policy (ListNamespaces filtering).
+//@ contract buildProxyServer
+//@   props C15 C16 C07 C19
+//@   assigns nothing
+//@   callpre makeServerOptions: @same_config: $c == c && $tlsConfig == tlsConfig
+//@   callpre NewAdminServiceProxyServer: @lcm_passed: $shardCountConfig == c.shardCountConfig && $lcmParameters == c.lcmParameters
+//@   callpre NewWorkflowServiceProxyServer: @ns_policy: c.aclPolicy != nil ==> $namespaceAccess != nil &&
+//@        (forall s string :: { s in $namespaceAccess.allowedMap } auth.allowedIn($namespaceAccess, s) <==>
+//@           (len(c.aclPolicy.AllowedNamespaces) == 0 || exists k int :: 0 <= k && k < len(c.aclPolicy.AllowedNamespaces) && c.aclPolicy.AllowedNamespaces[k] == s))
+
+//@ extern pure (*config.StringTranslator).AsLocalToRemoteBiMap
+//@ extern pure (*config.SATranslationConfig).AsLocalToRemoteSATranslation
+//@ pred lcmSupported(sc config.ShardCountConfig) = sc.Mode == config.ShardCountLCM ==> 1 <= sc.LocalShardCount && 1 <= sc.RemoteShardCount && sc.LocalShardCount * sc.RemoteShardCount <= MaxInt32
+
+// Direction and policy wiring of a cluster connection. The inbound (remote-facing) server gets the access policy,
+// the INVERSE namespace / search-attribute translations and the local shard count as remap target; the outbound
+// server gets the forward translations and the remote shard count; both get LCM(local, remote). A namespace
+// mapping that is not one-to-one aborts construction.
+//@ contract NewClusterConnection
+//@   props C13 C14 C15 C07
+//@   requires lcmSupported(connConfig.ShardCountConfig)
+//@   callpre createServer.1: @inbound_policy: $c.aclPolicy == connConfig.ACLPolicy
+//@   callpre createServer.1: @inbound_translations: $c.nsTranslations == nsTranslations.Inverse() && $c.saTranslations == saTranslations.Inverse()
+//@   callpre createServer.1: @inbound_lcm: $c.shardCountConfig == connConfig.ShardCountConfig && (connConfig.ShardCountConfig.Mode == config.ShardCountLCM ==>
+//@        $c.lcmParameters.TargetShardCount == connConfig.ShardCountConfig.LocalShardCount &&
+//@        $c.lcmParameters.LCM == (connConfig.ShardCountConfig.LocalShardCount * connConfig.ShardCountConfig.RemoteShardCount) /
+//@             common.sgcd(min(connConfig.ShardCountConfig.LocalShardCount, connConfig.ShardCountConfig.RemoteShardCount), max(connConfig.ShardCountConfig.LocalShardCount, connConfig.ShardCountConfig.RemoteShardCount)))
+//@   callpre createServer.2: @outbound_translations: $c.nsTranslations == nsTranslations && $c.saTranslations == saTranslations
+//@   callpre createServer.2: @outbound_lcm: $c.shardCountConfig == connConfig.ShardCountConfig && (connConfig.ShardCountConfig.Mode == config.ShardCountLCM ==>
+//@        $c.lcmParameters.TargetShardCount == connConfig.ShardCountConfig.RemoteShardCount &&
+//@        $c.lcmParameters.LCM == (connConfig.ShardCountConfig.LocalShardCount * connConfig.ShardCountConfig.RemoteShardCount) /
+//@             common.sgcd(min(connConfig.ShardCountConfig.LocalShardCount, connConfig.ShardCountConfig.RemoteShardCount), max(connConfig.ShardCountConfig.LocalShardCount, connConfig.ShardCountConfig.RemoteShardCount)))
+//@   callpre createServer: @translations_valid: err == nil
+//@   ensures @rejects_non_bijective: res1(connConfig.NamespaceTranslation.AsLocalToRemoteBiMap()) != nil ==> result1 != nil && result0 == nil
